@@ -60,18 +60,23 @@ Section Loop.
 
   Definition replace_last (vs : list V) (p : V) : list V := removelast vs ++ [p].
 
-  (** [push]; [collinear_unwrap] selects the pinned behaviour (`.unwrap()` => Panic 20) or the repaired one (`?`) *)
-  Definition loop_push_gen (collinear_unwrap : bool) (L : Loop) (point : V) : res Loop :=
+  (** [push]; [collinear_unwrap] selects the pinned behaviour (`.unwrap()` => Panic 20) or the repaired one (`?`);
+      [spike_dup] selects the behaviour before fix df28df6 (going straight back to the last-but-one vertex a
+      replaced the last vertex by a second copy of a) or the repaired one (the spike a -> b -> a is popped). *)
+  Definition loop_push_gen2 (collinear_unwrap spike_dup : bool) (L : Loop) (point : V) : res Loop :=
     do _ <- valid_to_add L point;
     let n := llen L in
     do vs <- (if Nat.leb 2 n then
                 let a := vnth (verts L) (Nat.sub n 2) in
                 let b := vnth (verts L) (Nat.sub n 1) in
+                if negb spike_dup && vcompare a point then Ok (removelast (verts L)) else
                 do col <- (if collinear_unwrap then unwrap 20%N (is_collinear a b point) else is_collinear a b point);
                 Ok (if col then replace_last (verts L) point else verts L ++ [point])
               else Ok (verts L ++ [point]));
     let L' := set_verts L vs in
     if Nat.eqb (length vs) 3 then loop_set_normal L' else Ok L'.
+  (** [loop_push_gen true] = the pinned snapshot b5e97ad (unwrap + duplicate); [loop_push_gen false] = the live code *)
+  Definition loop_push_gen (pinned : bool) := loop_push_gen2 pinned pinned.
   Definition loop_push := loop_push_gen false.
 
   Fixpoint sum_cross (vs : list V) (first : V) (acc : V) : V :=
